@@ -77,13 +77,7 @@ def build(sc, seed):
     # ---------------- groups
     grp = None
     if s in ("GroupBCD", "GroupProxNewton"):
-        sizes = []
-        left = p
-        while left > 0:
-            k = int(min(left, rng.integers(1, 5)))
-            sizes.append(k)
-            left -= k
-        ptr, idx = gen.groups_contiguous(p, sizes)
+        ptr, idx = gen.groups_random(rng, p, 4, permuted=bool(rng.integers(2)))
         grp = (ptr, idx)
         dfd = dict(dfd, grp_ptr=ptr, grp_indices=idx)
     # ---------------- scale / alpha
